@@ -82,7 +82,8 @@ class C18(Prop):
         "xShuffleWindows_inplace_eq_separate", "msaShuffle_inplace_eq_separate", "qrna_inplace_eq_separate", "roll_returns_from_poked_state",
         "dchoose_returns", "iid_never_fatal", "markov1_counts_exact", "cMarkov0_einval_or_ok", "xMarkov0_einval_or_ok", "cMarkov1_einval_or_ok", "xMarkov1_einval_or_ok",
         "dchoose_inverse_cdf", "markov0_frequencies_exact", "markov1_conditional_exact", "iid_never_fatal_any_number_type", "qrna_status",
-        "ieee_carrier_lawful", "ieee_L5", "iid_support_ieee", "iid_support_ieee_negzero", "iid_never_fatal_ieee")]
+        "ieee_carrier_lawful", "ieee_L5", "iid_support_ieee", "iid_support_ieee_negzero", "iid_never_fatal_ieee", "cMarkov0_einval_or_ok_ieee", "xMarkov0_einval_or_ok_ieee",
+        "cMarkov1_einval_or_ok_ieee", "xMarkov1_einval_or_ok_ieee", "markov1_counts_exact_ieee")]
     claimed = True
     technique = ("Lean 4 proof (Fisher-Yates/swap-loop invariants, permutation and support theorems for every generator state) + "
                  "exact differential correspondence of the executable model (on the C09 generator model) with the ASan/UBSan-built C code + python property monitors on the C output")
@@ -90,7 +91,7 @@ class C18(Prop):
                   "DP shuffle: ordered-pair multiset, first and last residue and length preserved whenever it returns eslOK, and its two reality checks can never fire (Altschul-Erickson/BEST argument "
                   "proved from the code's own connectivity test), eslEINVAL exactly on invalid residues; k-mer shuffle = permutation of the consecutive k-mers after the unshuffled L mod k prefix; "
                   "window shuffles keep the multiset inside every window; reversal = List.reverse, in place or not; Markov-0 emits only input residues, Markov-1 only circular adjacent pairs, "
-                  "IID only symbols with p != 0 (over any lawful number type; rationals are an instance); column shuffle and sequence-order permutation output a permutation of the column (record) list "
+                  "IID only symbols with p != 0 (over any lawful number type; the rationals and the IEEE-754 carrier with any monotone rounding are proved instances - for the latter also p = -0.0 is never chosen, and IID / Markov-0 / Markov-1 never reach esl_fatal in ROUNDED arithmetic); column shuffle and sequence-order permutation output a permutation of the column (record) list "
                   "with entries kept together; bootstrap outputs only input columns; VShuffle keeps every column's multiset and gap positions; QRNA keeps column classes, gap positions and the per-class "
                   "column multiset. The hand model is tied to the working tree by an exact differential run (same seed => same bytes, same generator consumption, in place = separate) and every clause "
                   "is also monitored directly on the C output. Uniformity (round 3): every Fisher-Yates loop of the library (CShuffle, XShuffle, esl_vec_*Shuffle[64], column/sequence-order "
@@ -117,7 +118,7 @@ class C18(Prop):
                   "and gives iid_never_fatal_ieee (never esl_fatal in ROUNDED arithmetic whenever the computed sum is finite and non-zero); iid_support_ieee_negzero covers p[k] = -0.0. What stays TRUSTED is ONE statement: C double / Lean's opaque Float are such a carrier "
                   "(round-to-nearest-even, 53-bit significands) - C09's FloatFacts list cannot provide L1-L5 (it has no equalities beyond exact integers and no fact about division by a non-integer), so the two lists stay separate; "
                   "the op `fplaws` still evaluates every instance (in C doubles and in Lean Float) on the values the next Markov/IID call encounters "
-                  "(counts in the evidence file: fplaws_calls / fplaws_instances_checked; `bad` must be 0); the Markov-0/1 never-esl_fatal theorems are proved over the rationals only; zero-length pairwise alignments raise Easel's zero-size-allocation exception (modelled, outside the quantifier).")
+                  "(counts in the evidence file: fplaws_calls / fplaws_instances_checked; `bad` must be 0); Markov-0 AND Markov-1 never reach esl_fatal in rounded arithmetic either ({c,x}Markov{0,1}_einval_or_ok_ieee: every input of at most 2^32 residues, every monotone rounding, every generator state; counts are exact integers, markov1_counts_exact_ieee); zero-length pairwise alignments raise Easel's zero-size-allocation exception (modelled, outside the quantifier).")
     diverge_is_violation = False
     quick_budget_s = 90
     trusted_base = ["hand model of esl_randomseq.c / esl_msashuffle.c / esl_vectorops.c shufflers tied by exact differential run (h_randomseq.c, ASan+UBSan build of the working tree)",
@@ -128,8 +129,8 @@ class C18(Prop):
                    "the roll range `j-i+d` of esl_rsq_{C,X}ShuffleWindows is read from the working tree on every run (WinParams.lean); d = 0 (text version of the pinned tree) is a proved non-uniform shuffle - an observation OUTSIDE the property (C18 promises the residue counts per window, which hold for d in {0,1}); it is not a violation and not a known finding",
                    "the C three-statement swap is Array.swapIfInBounds; all indices are proved in range (RegionPerm/WinPerm/RowsInv hypotheses), ASan checks the C side",
                    "allocation never fails, except ESL_ALLOC of size 0 (esl_msashuffle_{C,X}QRNA on zero-length sequences returns eslEMEM - modelled, outside 'alignments as in C03')",
-                   "DChoose/FChoose arithmetic is binary64 (Lean Float, same libm-free operations); theorems about Markov/IID support are over an abstract lawful number type; the four laws are trusted for binary64 and monitored on the executed values by the op `fplaws` (FloatLaws.lean lists the exact instances: running sums of DChoose, positive row sums of Markov1, the length L, every esl_random() value drawn)",
-                   "every public function of esl_randomseq.c (20), esl_msashuffle.c (6) and the esl_vec_*Shuffle / *Shuffle64 / *Reverse families of esl_vectorops.c (13) is modelled and compared byte-exactly; alphabet constants hard-coded in the driver (K, Kp, gap characters, gap/nonresidue/missing codes) are compared with the real ESL_ALPHABET objects on every run (op `abcinfo`)",
+                   "DChoose/FChoose arithmetic is binary64 (Lean Float, same libm-free operations); theorems about Markov/IID support are over an abstract lawful number type whose laws (each valid for every binary64 value) are PROVED for the IEEE-754 carrier Ieee rho with an abstract monotone rounding (IeeeCarrier.lean) and for the rationals; that C double / Lean Float ARE such a carrier is the one trusted statement, and the op `fplaws` monitors the facts on the executed values (FloatLaws.lean lists the instances: running sums of DChoose, positive row sums of Markov1, the length L, every esl_random() value drawn)",
+                   "every public function of esl_randomseq.c (20), esl_msashuffle.c (6) and the esl_vec_*Shuffle / *Shuffle64 / *Reverse families of esl_vectorops.c (13) is modelled and compared byte-exactly - checked mechanically on every run against the working tree's headers (evidence: api_coverage, 44 public symbols incl. esl_rnd_Roll/DChoose/FChoose; esl_rnd_{D,F}ChooseCDF are not used by any routine of the property); alphabet constants hard-coded in the driver (K, Kp, gap characters, gap/nonresidue/missing codes) are compared with the real ESL_ALPHABET objects on every run (op `abcinfo`)",
                    "esl_rsq_SampleDirty's sampled-vector mode is modelled in binary64 only (esl_rnd_Dirichlet(NULL) = normalised -log(UniformPositive), libm log; bit-identical in the differential run); general esl_rnd_Gamma/Dirichlet with alpha != NULL are not modelled"]
     rule = ("cases = seed + 1..8 shuffler calls (+ a final generator peek); non-trivial = at least one ok output of length >= 3 that differs from its input; distinct by output trace")
 
@@ -220,6 +221,7 @@ class C18(Prop):
     def rand_p(self, rng, K, single):
         while True:
             p = [rng.choice([0.0, 0.0, rng.random(), rng.random()]) for _ in range(K)]
+            if rng.random() < 0.1: p = [-0.0 if (x == 0.0 and rng.random() < 0.5) else x for x in p]      # round 6: negative zeros (p[k] == 0.0 in C; never chosen: iid_support_ieee_negzero)
             if rng.random() < 0.15:
                 p = [0.0] * K; p[rng.randrange(K)] = 1.0
             if sum(p) > 0: break
@@ -398,6 +400,9 @@ class C18(Prop):
                 "fplaws of=xmarkov1 s=%s K=5 ip=0" % hx([0, 1, 2, 3, 4, 4, 4]), "xmarkov1 s=%s K=5 ip=0" % hx([0, 1, 2, 3, 4, 4, 4]),
                 "fplaws of=cmarkov0 s=%s ip=0" % hx(b"ZZZYZ"), "cmarkov0 s=%s ip=0" % hx(b"ZZZYZ"),
                 "fplaws of=xmarkov0 s=- K=4 ip=0", "fplaws of=cmarkov0 s=%s ip=0" % hx(b"A1"), "fplaws of=xmarkov1 s=0001 K=4 ip=0", "fplaws of=xiid p=none K=4 L=3", "peek"]},
+            # b700765: no K-byte scratch word when there are fewer than two K-mers (k = INT_MAX used to request 2 GB)
+            {"name": "kmers-huge-k", "ops": ["seed s=4", "ckmers s=%s k=2147483647 ip=0" % hx(b"ACGTACGT"), "xkmers s=%s k=2147483647 ip=1" % hx([0, 1, 2, 3]),
+                                             "ckmers s=- k=2147483647 ip=1", "xkmers s=%s k=1073741824 ip=0" % hx([3, 2, 1]), "peek"]},
             {"name": "alphabet-constants", "ops": ["abcinfo abc=dna", "abcinfo abc=amino"]},
             {"name": "same-seed-inplace", "ops": ["seed s=99", "cshuffle s=%s ip=0" % hx(b"ACGTACGTAC"), "seed s=99", "cshuffle s=%s ip=1" % hx(b"ACGTACGTAC"), "peek"]},
         ]
@@ -900,6 +905,7 @@ class C18(Prop):
                 "api_coverage": cov,
                 "window_roll_range_read_from_tree": getattr(self, "_win", None),
                 "fplaws_calls": self._laws[0], "fplaws_instances_checked": self._laws[1],
+                "mutations_round6": "10 hand mutants aimed at the new generator shapes (in-place k-mer/window boundaries, esl_vec_* n=2, 17-row / 40-row alignments, QRNA aliasing mode 2, L=2 in-place reversal, DChoose <=): see reports/round6/C18.md",
                 "mutations_caught": "round 4: automatic single-site sweep (tools/mutsweep.py) over esl_msashuffle.c and the modelled functions of esl_randomseq.c: 110 mutants, 91 killed, 19 survivors all classified "
                                     "equivalent (ctype loop bounds where the class is false at 0/127/128, redundant stores, error-path-only statements, message strings, larger allocations, a renormalisation DChoose repeats); "
                                     "13 hand mutants of the newly covered code (index rebuild, sparse per-sequence markup guards, xs/ys copy aliasing, DChoose/FChoose normalisation, VShuffle gap test) all killed, "
